@@ -14,7 +14,7 @@ func init() { register(genChecksum) }
 // (parseRequestBody, roomHandler decision order) and backend_client.go (the one
 // outgoing POST site): C02.
 func genChecksum(c *ctx) *leanFile {
-	l := c.newLean("Checksum", "api_backend.go", "backend_server.go", "backend_client.go")
+	l := c.newLean("Checksum", "api_backend.go", "backend_server.go", "backend_client.go", "backend_configuration.go", "backend_storage_static.go", "backend_storage_etcd.go")
 	api := c.file("api_backend.go")
 	bs := c.file("backend_server.go")
 	bc := c.file("backend_client.go")
@@ -449,6 +449,50 @@ func genChecksum(c *ctx) *leanFile {
 		})
 	}
 	l.strList("configUrlProgram", cfgProg, okCfg, "getConfiguredHosts: loop over getConfiguredBackendIDs(…) storing &Backend{url: u, …} not found")
+
+	// etcd: EtcdKeyUpdated stores `url: info.Url` after info.CheckValid(); the statements of
+	// BackendInformationEtcd.CheckValid that give p.Url a value (only the standard-port rewriting: the url
+	// is stored as given, in particular without a '/' appended).
+	var etcdProg []string
+	okEtcd := false
+	if fd := findFunc(api, "BackendInformationEtcd", "CheckValid"); fd != nil && fd.Body != nil {
+		okEtcd = true
+		for _, st := range fd.Body.List {
+			assigns := false
+			ast.Inspect(st, func(y ast.Node) bool {
+				if as, ok := y.(*ast.AssignStmt); ok {
+					for _, lhs := range as.Lhs {
+						if strings.Join(strings.Fields(srcText(c.fset, lhs)), "") == "p.Url" {
+							assigns = true
+						}
+					}
+				}
+				return true
+			})
+			if assigns {
+				etcdProg = append(etcdProg, strings.Join(strings.Fields(srcText(c.fset, st)), " "))
+			}
+		}
+	}
+	l.strList("etcdUrlProgram", etcdProg, okEtcd, "BackendInformationEtcd.CheckValid not found in api_backend.go")
+	etcdStores := false
+	if fd := findFunc(c.file("backend_storage_etcd.go"), "backendStorageEtcd", "EtcdKeyUpdated"); fd != nil && fd.Body != nil {
+		checked := false
+		ast.Inspect(fd.Body, func(y ast.Node) bool {
+			switch n := y.(type) {
+			case *ast.CallExpr:
+				if isSel(n.Fun, "info", "CheckValid") {
+					checked = true
+				}
+			case *ast.KeyValueExpr:
+				if isIdent(n.Key, "url") && checked && strings.Join(strings.Fields(srcText(c.fset, n.Value)), "") == "info.Url" {
+					etcdStores = true
+				}
+			}
+			return true
+		})
+	}
+	l.boolean("etcdStoresCheckedUrl", etcdStores, etcdStores, "EtcdKeyUpdated: info.CheckValid() followed by &Backend{url: info.Url, …} not found")
 	l.nat("outgoingPostSites", int64(postSites), postSites > 0, "no outgoing POST request site found in the package")
 	l.nat("outgoingPostSitesSigned", int64(signedSites), postSites > 0, "no outgoing POST request site found in the package")
 	return l
